@@ -44,6 +44,7 @@ fn main() {
             parts.push(make_part("sched-queue-hold", "SCHED", cli.cases(6_000, 300_000), queue::c07_hold_strategy, |_| (), |_, c| queue::run_queue_case("C07", c)));
             parts.push(make_part("sched-server", "SCHED", cli.cases(1_500, 80_000), || server::server_strategy(6, false), |_| (), |_, c| server::run_server_case("C07", c)));
             parts.push(make_part("seq-model", "SCHED", cli.cases(4_000, 200_000), queue::seq_strategy, |_| (), |_, c| queue::run_seq_case_for("C07", c)));
+            parts.push(make_part("sched-queue-edge", "SCHED", cli.cases(6_000, 300_000), queue::edge_strategy, |_| (), |_, c| queue::run_edge_case("C07", c)));
             (
                 "part sched-queue: MessagesQueue alone under the controlled scheduler: 1-3 pusher tasks (1-4 elements each, generated yields) x 1-3 receiver tasks with generated operation lists over recv / recv_timeout(0,5,50 ms virtual) / try_recv, schedule tape; oracle: received multiset = pushed (no loss, no duplicate), wire order for a single receiver, nothing left queued; lost wake-up = exact deadlock report while main waits for the count; part sched-queue-hold: 2-4 receivers that each take one request and stay busy with it (a long handler) while at most as many requests arrive in bursts: a request left queued while another receiver is still blocked deadlocks the scenario; part sched-server: the whole Server over the in-memory listener with application threads receiving through recv / recv_timeout / try_recv / the incoming_requests iterator: every connection gets exactly its own responses (each request delivered to exactly one thread, answered once); part seq-model: single-task histories of push / unblock / try_recv / recv_timeout / recv against a reference model: every queued request comes out, in order, as soon as no unblock is pending before it (a poller is never starved by a stale unblock marker); non-trivial: pushers+receivers >= 3 and a receiver really parked on the queue's condition variable",
                 sched_assumptions,
@@ -52,6 +53,7 @@ fn main() {
         "C17" => {
             parts.push(make_part("sched-queue", "SCHED", cli.cases(8_000, 400_000), queue::c17_queue_strategy, |_| (), |_, c| queue::run_queue_case("C17", c)));
             parts.push(make_part("seq-model", "SCHED", cli.cases(8_000, 400_000), queue::seq_strategy, |_| (), |_, c| queue::run_seq_case(c)));
+            parts.push(make_part("sched-queue-edge", "SCHED", cli.cases(6_000, 300_000), queue::edge_strategy, |_| (), |_, c| queue::run_edge_case("C17", c)));
             (
                 "part sched-queue: (a) counting: 1-4 receivers using recv() only, 0-2 pushers, u generated unblock() calls at generated moments then topped up to one per receiver: #recv errors <= #unblock calls at every return, = #receivers at the end, elements conserved and ordered; (b) mixed recv/recv_timeout/try_recv lists with unblocks in flight: conservation, try_recv performs zero waits on the condition variable; (c) timed receivers only: an empty-handed recv_timeout(T) takes >= T-1 ms and (single timer source) <= 2T of virtual time; part seq-model: single-task histories of push/unblock/try_recv/recv_timeout/recv against a reference model (FIFO of requests + count of pending unblocks): requests come out in order, an empty-handed return with a request queued uses up exactly one unblock, totals match, timed bounds exact; non-trivial: an unblock issued and a receiver really parked (sched-queue) / a receive executed with both a request and an unblock pending (seq-model)",
                 sched_assumptions,
